@@ -7425,8 +7425,8 @@ class FrameHE(Frame):
     def __hash__(self) -> int:
         if not hasattr(self, '_hash'):
             self._hash = hash((
-                    tuple(self.index.values),
-                    tuple(self.columns.values),
+                    tuple(self.index),
+                    tuple(self.columns),
                     # tuple(dt.str for dt in self._blocks.dtypes)
                     ))
         return self._hash
